@@ -3,7 +3,7 @@
 harness/c12_pdc.cpp creates the domain control for a configuration (structured base mesh, --level arguments, partitioner command
 line or a prescribed owner map) on N ranks, every rank dumps its layers / levels / patch meshes / halos / child patch parts;
 this module concatenates the rank dumps into one case per configuration and lets TLC judge the cross-rank invariants of
-spec/PartitionDist.tla (spec/PartitionDistCheck.tla).  spec/HaloSplit.tla is the model (M) of the halo splitting exchange.
+spec/PartitionDist.tla (spec/PartitionDistCheck.tla).
 
 Nothing in here decides the property: it builds configurations, runs the harness and forwards TLC's verdicts.
 """
@@ -53,13 +53,20 @@ def configurations(tier, rng, assigns):
     # an application that does not support multi-layered hierarchies (support_multi_layered = false)
     out.append(cfg(4, 4, 1, ["2", "0"], args=NAIVE, multi=False))
     # ---- two and three layers: strips (children that do not touch the parent interface), blocks, odd sizes ----------------------
-    two = [(4, 4, 1, lv(4, 2, 1), NAIVE), (4, 1, 4, lv(4, 2, 1), NAIVE), (4, 2, 2, lv(4, 2, 1), TWOLVL), (4, 3, 3, lv(4, 2, 1), NAIVE),
+    # (the 2-level partitioner only where it is documented to succeed on every layer: #patches = #cells * 2^k)
+    two = [(4, 4, 1, lv(4, 2, 1), NAIVE), (4, 1, 4, lv(4, 2, 1), NAIVE), (4, 2, 1, lv(4, 2, 1), TWOLVL), (4, 3, 3, lv(4, 2, 1), NAIVE),
            (4, 8, 1, lv(4, 2), NAIVE), (4, 2, 2, lv(4, 1), ()), (4, 4, 1, lv(4, 1), NAIVE),
-           (8, 8, 1, lv(8, 2, 1), NAIVE), (8, 2, 4, lv(8, 4, 1), NAIVE), (8, 4, 2, lv(8, 2, 1), TWOLVL), (8, 3, 3, lv(8, 4, 1), NAIVE)]
-    three = [(8, 8, 1, lv(8, 4, 2, 1), NAIVE), (8, 4, 2, lv(8, 4, 2, 1), TWOLVL), (8, 3, 3, lv(8, 4, 2), NAIVE)]
+           (8, 8, 1, lv(8, 2, 1), NAIVE), (8, 2, 4, lv(8, 4, 1), NAIVE), (8, 2, 1, lv(8, 2, 1), TWOLVL), (8, 3, 3, lv(8, 4, 1), NAIVE)]
+    three = [(8, 8, 1, lv(8, 4, 2, 1), NAIVE), (8, 2, 1, lv(8, 4, 2, 1), TWOLVL), (8, 3, 3, lv(8, 4, 2), NAIVE)]
     for nr, nx, ny, l, a in two + three:
         out.append(cfg(nr, nx, ny, l, args=a))
-    out.append(cfg(4, 4, 1, ["3:4", "2:2", "1:1", "0"], args=NAIVE))          # levels as an application user writes them
+    # levels as an application user writes them; two and more progeny groups on every partitioned layer (the processes of a group
+    # with non-zero offset see their siblings under layer ranks that differ from the child indices extract_patch returns)
+    out.append(cfg(4, 4, 1, ["3:4", "2:2", "1:1", "0"], args=NAIVE))
+    for nx, ny in ((2, 1), (2, 2), (4, 1), (3, 2)):
+        out.append(cfg(4, nx, ny, ["4:4", "2:2", "0:1"] if nx * ny == 2 else ["3:4", "2:2", "0:1"], args=NAIVE, tag="groups:"))
+    for nx, ny in ((2, 1), (4, 2), (8, 1), (3, 3)):
+        out.append(cfg(8, nx, ny, ["5:8", "3:4", "1:2", "0"] if (nx * ny == 2 and thorough) else ["3:8", "2:4", "1:2", "0"], args=NAIVE, tag="groups:"))
     # ---- prescribed owner maps: every assignment TLC enumerates for 4 cells, on the 2x2 block and the 4x1 strip -------------------
     a4 = [r for r in assigns.get(4, []) if len(r) == 4]
     a4_2 = [r for r in assigns.get(4, []) if len(r) == 2]
@@ -92,14 +99,14 @@ def configurations(tier, rng, assigns):
         out.append(cfg(8, nx, ny, lv(8, 2, 1), mode="extern", owner=rand_owner(nx * ny, 8), args=("--parti-type", "extern", "naive"), tag="rand:"))
     if thorough:
         # up to 16 ranks, three and four layers, non-power-of-two sibling counts, hexahedra, the genetic partitioner
-        for nr, nx, ny, l, a in [(16, 4, 4, lv(16, 4, 1), TWOLVL), (16, 16, 1, lv(16, 4, 1), NAIVE), (16, 16, 1, lv(16, 8, 4, 2, 1), NAIVE),
+        for nr, nx, ny, l, a in [(16, 2, 2, lv(16, 4, 1), TWOLVL), (16, 16, 1, lv(16, 4, 1), NAIVE), (16, 16, 1, lv(16, 8, 4, 2, 1), NAIVE),
                                  (16, 4, 4, lv(16, 8, 2, 1), NAIVE), (16, 5, 5, lv(16, 4, 2), NAIVE), (16, 4, 4, ["1", "0"], ()),
                                  (6, 6, 1, lv(6, 2, 1), NAIVE), (6, 3, 2, lv(6, 3, 1), NAIVE), (9, 3, 3, lv(9, 3, 1), NAIVE), (12, 4, 3, lv(12, 4, 2, 1), NAIVE),
                                  (12, 12, 1, lv(12, 6, 3), NAIVE), (3, 3, 1, ["1", "0"], NAIVE), (5, 5, 1, ["2", "1"], NAIVE), (7, 4, 2, ["1", "0"], NAIVE),
                                  (4, 4, 4, lv(4, 2, 1), GENETIC), (4, 4, 4, ["1", "0"], GENETIC), (8, 4, 4, lv(8, 2, 1), GENETIC),
-                                 (4, 2, 2, lv(4, 2, 1, top=3), TWOLVL), (8, 8, 1, lv(8, 4, 2, 1, top=4), NAIVE)]:
+                                 (4, 2, 1, lv(4, 2, 1, top=3), TWOLVL), (8, 8, 1, lv(8, 4, 2, 1, top=4), NAIVE)]:
             out.append(cfg(nr, nx, ny, l, args=a))
-        for nr, n3, l, a in [(8, (2, 2, 2), lv(8, 2, 1), TWOLVL), (8, (4, 2, 1), lv(8, 4, 2, 1), NAIVE), (4, (2, 2, 1), lv(4, 2, 1), NAIVE),
+        for nr, n3, l, a in [(8, (2, 1, 1), lv(8, 2, 1), TWOLVL), (8, (4, 2, 1), lv(8, 4, 2, 1), NAIVE), (4, (2, 2, 1), lv(4, 2, 1), NAIVE),
                              (8, (2, 2, 2), ["1", "0"], ()), (4, (4, 1, 1), lv(4, 2, 1), NAIVE)]:
             out.append(cfg(nr, n3[0], n3[1], l, args=a, nz=n3[2], dim=3))
         for rep in range(6):
@@ -139,29 +146,15 @@ def sig(c, pred, layer, lev, nlayers):
             "ptype": (c["args"][1] if len(c["args"]) > 1 else "default")}
 
 
-def run_model(chk):
-    """M: the two-phase halo splitting exchange with its offset tables, all small sibling / adjacency configurations"""
-    thorough = chk.tier == "thorough"
-    r = vlib.tlc("HaloSplit", "HaloSplit_thorough.cfg" if thorough else "HaloSplit_quick.cfg", workers=4 if thorough else 2, want_printed=False,
-                 timeout=1500, xmx="3g")
-    chk.add_tlc(r, "HaloSplit (halo splitting exchange)")
-    if r.violation:
-        chk.model_violation(r, "HaloSplit.tla: a child does not obtain the intersection of its patch with the neighbour child's patch")
-    # the model must be able to fail: with the offset table indexed by the sibling number instead of the running child-offset index
-    # (the realistic slip) TLC has to find a counterexample - otherwise the invariant is vacuous and the machinery is broken
-    r2 = vlib.tlc("HaloSplit", "HaloSplit_slip.cfg", workers=2, want_printed=False, timeout=600, xmx="2g")
-    if not r2.violation:
-        raise vlib.MachineryError("HaloSplit.tla does not reject the offset table indexed by sibling number: the model is vacuous")
-    chk.extra["halo_split_model"] = {"states": r.distinct, "slip_variant_rejected": True}
-
-
-def run_phase(chk, assigns, rng, gdir):
-    if shutil.which("mpirun") is None or shutil.which("mpicxx") is None:
-        raise vlib.MachineryError("MPI toolchain (mpicxx/mpirun) not available")
-    binary, = vlib.build(["c12_pdc"], variant="mpi")
+def run_phase(chk, assigns, rng, gdir, binary=None):
+    """chk: the Check object or a stand-in with the same bookkeeping interface (the phase may run in a worker thread)"""
+    if binary is None:
+        if shutil.which("mpirun") is None or shutil.which("mpicxx") is None:
+            raise vlib.MachineryError("MPI toolchain (mpicxx/mpirun) not available")
+        binary, = vlib.build(["c12_pdc"], variant="mpi")
     cases = configurations(chk.tier, rng, assigns)
     for k, c in enumerate(cases):
-        c["id"] = "m%d" % k
+        c["id"] = "d%d" % k
         c["out"] = os.path.join(gdir, c["id"])
     # ---- the real code on N ranks (a time-out is re-run alone with six times the budget by vlib.run_cases before it is reported) ----
     results = {}
@@ -188,7 +181,7 @@ def run_phase(chk, assigns, rng, gdir):
             items.append({"id": c["id"], "path": path, "weight": 2000 + ncell})
             continue
         if rr.get("skip"):
-            chk.extra["skipped"] = chk.extra.get("skipped", 0) + 1
+            chk.extra["mpi_skipped"] = chk.extra.get("mpi_skipped", 0) + 1
             continue
         desc = rr.get("why") or ("outcome %s: %s" % (rr.get("outcome"), (rr.get("stderr") or "")[-700:]))
         chk.violation(sig(c, "harness:" + str(rr.get("outcome", "bad")), -1, -1, 0), "%s (%s): %s" % (c["id"], c["label"], desc),
@@ -197,7 +190,9 @@ def run_phase(chk, assigns, rng, gdir):
     # ---- TLC judges ----
     verdicts, _ = vmeshlib.run_tlc_stream(chk, "PartitionDistCheck", "C12_BATCH3", items, "c12pdc", prepare="load_c12", max_procs=6,
                                           cap_weight=40000)
-    tot = {"pairs": 0, "single": 0, "cross": 0, "levels": 0}
+    tot = {"pairs": 0, "single": 0, "cross": 0, "levels": 0, "shifted": 0}
+    maxgroups = 0
+    multigroup = 0
     bylayers = {}
     for c in good:
         v = verdicts.get(c["id"])
@@ -206,6 +201,8 @@ def run_phase(chk, assigns, rng, gdir):
         for k in tot:
             tot[k] += v["info"][k]
         bylayers[v["info"]["layers"]] = bylayers.get(v["info"]["layers"], 0) + 1
+        maxgroups = max(maxgroups, v["info"]["groups"])
+        multigroup += 1 if (v["info"]["layers"] >= 2 and v["info"]["groups"] >= 2) else 0
         slim = {k: c[k] for k in c if k != "out"}
         for fl in v["fails"]:
             chk.violation(sig(c, fl["p"], fl["layer"], fl["l"], v["info"]["layers"]),
@@ -220,6 +217,9 @@ def run_phase(chk, assigns, rng, gdir):
     chk.extra["mpi_neighbour_pairs_finest_layer"] = tot["pairs"]
     chk.extra["mpi_pairs_touching_in_one_vertex"] = tot["single"]
     chk.extra["mpi_pairs_of_different_parents"] = tot["cross"]
+    chk.extra["mpi_configurations_with_2_or_more_progeny_groups"] = multigroup
+    chk.extra["mpi_max_progeny_groups"] = maxgroups
+    chk.extra["mpi_processes_in_shifted_groups_with_sibling_neighbours"] = tot["shifted"]
     for c in good[:1] + [c for c in good if c["mode"] == "explicit"][:1]:
         chk.sample({"id": c["id"], "mpi": c["label"], "owner": c.get("owner"), "chosen": infos[c["id"]], "verdict": verdicts[c["id"]]})
     return len(cases)
